@@ -17,6 +17,7 @@ func (x *Exec) step(fr *Frame, st *State, ins ssa.Instruction, cont func(*Frame,
 	case *ssa.Alloc:
 		elem := in.Type().(*types.Pointer).Elem()
 		ref := x.newRef(st, in.Comment)
+		x.noteRefArrays(ref, elem)
 		if !in.Heap {
 			st.markStack(ref)
 		} else if in.Comment != "varargs" {
